@@ -451,3 +451,154 @@ def pm_layout_rules(ck, P, rule="R-PM-LAYOUT"):
     tail_ok = tail is None or tail.get("k") in ("loop",) or not ir.contains(tail, lambda y: y.get("k") == "call" and (y.get("q") or "").endswith("Ok::{Ctor#0}"))
     ck.check(n_ok >= 1 and not bad and tail_ok, rule, b["q"] + "|limit-honoured", "every successful return of as_directory is dominated by root_bytes.len() <= %s (%d returns)" % (lim_name, n_ok),
              "as_directory can return a root directory without having compared its length with the limit (%s)" % (bad or "value returned at the end of the function"), ir.loc(b))
+
+
+
+def pm_directory_codec_rules(ck, P, rule="R-PM-DIR"):
+    """PMTiles v3 directory columns, writer (serialize_entries) and reader (from_blob) against the published encoding:
+       count first; tile ids as deltas to the previous id (running value starts at 0 and is updated to the id just written / is
+       the running sum when read); run lengths and lengths verbatim, one value per entry; offsets as offset + 1, or 0 exactly when
+       the entry starts where the previous one ends (never for the first entry).  Terms from affine.py."""
+    from . import affine as A
+    se = [b for b in P.bodies if b["q"].endswith("entries_v3::EntriesSliceV3::serialize_entries")]
+    fb = [b for b in P.bodies if b["q"].endswith("entries_v3::EntriesV3::from_blob")]
+    if not ck.anchor(rule, "serialize_entries + from_blob", se + fb, 2):
+        return
+    b = se[0]
+    loops = [n for n in ir.walk_nodes(ir.fn_block(b)) if n.get("k") == "for"]
+    top = ir.stmts_of(ir.fn_block(b))
+    wv = lambda n_: [y for y in ir.walk_nodes(n_) if y.get("k") == "mcall" and y.get("name") == "write_varint"]   # noqa: E731
+    # count first
+    first_w = next((st for st in top if wv(st)), None)
+    okc = first_w is not None and first_w.get("k") != "for" and len(wv(first_w)) == 1 and "len" in A.show(A.ev(wv(first_w)[0]["a"][0], _env_of(b)))
+    ck.check(okc and len(loops) == 4, rule, "writer|count-first", "the entry count is written before the four columns", "the directory does not start with the entry count followed by four column loops (%d loops)" % len(loops), ir.loc(b))
+    if len(loops) != 4:
+        return
+    # ids
+    lp = loops[0]
+    ent = ir.pat_binds(lp["pat"])
+    w = wv(lp["body"])
+    oki, why = False, ""
+    if len(ent) == 1 and len(w) == 1:
+        env = A.Env()
+        A.run(ir.stmts_of(lp["body"]), env)
+        # state variable: the local assigned in the loop body
+        asg = [y for y in ir.walk_nodes(lp["body"]) if y.get("k") == "assign" and y["l"].get("k") == "path"]
+        if len(asg) == 1:
+            sv = ir.local_hid(asg[0]["l"])
+            env0 = A.Env()
+            written = None
+            for st in ir.stmts_of(lp["body"]):
+                x = st["e"] if st.get("k") == "semi" else st
+                if ir.contains(x, lambda y: y is w[0]):
+                    written = A.ev(w[0]["a"][0], env0)
+                A.run([st], env0)
+            tid = A.sym(((ent[0]["hid"], ent[0]["name"]), ".tile_id"))
+            prev = A.sym((sv, ir.strip(asg[0]["l"])["name"]))
+            init = [y for y in ir.walk_nodes(ir.fn_block(b)) if y.get("k") == "let" and y["pat"].get("k") == "bind" and y["pat"]["hid"] == sv]
+            oki = written is not None and A.eq(written, A.sub(tid, prev)) and A.eq(env0.m.get(sv), tid) and bool(init) and ir.const_eval(init[0].get("init"), {}) == 0
+            why = "written %s, state becomes %s" % (A.show(written), A.show(env0.m.get(sv)))
+    ck.check(oki, rule, "writer|id-deltas", "tile ids are written as id - previous id, previous starts at 0 and becomes the id just written", "tile id column is not delta-encoded as published (%s)" % why, ir.loc(lp))
+    # run lengths / lengths
+    for k_, fld in ((1, ".run_length"), (2, ".range.length")):
+        lp = loops[k_]
+        ent = ir.pat_binds(lp["pat"])
+        w = wv(lp["body"])
+        okv = len(ent) == 1 and len(w) == 1 and A.show(A.ev(w[0]["a"][0], A.Env())) == ent[0]["name"] + fld and not [y for y in ir.walk_nodes(lp["body"]) if y.get("k") in ("if", "continue", "break")]
+        ck.check(okv, rule, "writer|" + fld.strip("."), "column %s is written verbatim, one value per entry" % fld, "column %s is not written verbatim for every entry" % fld, ir.loc(lp))
+    # offsets
+    lp = loops[3]
+    iv = ir.pat_binds(lp["pat"])
+    w = wv(lp["body"])
+    oko, why = False, ""
+    if len(iv) == 1 and len(w) == 1:
+        lets = {y["pat"]["hid"]: y["init"] for y in ir.walk_nodes(lp["body"]) if y.get("k") == "let" and "init" in y and y["pat"].get("k") == "bind"}
+        v = ir.strip(w[0]["a"][0])
+        if ir.local_hid(v) in lets:
+            v = ir.unparen(lets[ir.local_hid(v)])
+        if v.get("k") == "if" and "else" in v:
+            conj = []
+
+            def split(c):
+                c = ir.unparen(c)
+                if c.get("k") == "bin" and c.get("op") == "&&":
+                    split(c["l"])
+                    split(c["r"])
+                else:
+                    conj.append(c)
+            split(v["c"])
+            i_s = A.local_sym(iv[0])
+            env = A.Env()
+            gt0 = [c for c in conj if ir.cmp_norm(c) is not None and ir.cmp_norm(c)[0] == iv[0]["name"] and ir.cmp_norm(c)[1:] in ((">", "0"), (">=", "1"), ("!=", "0"))]
+            eqs = [c for c in conj if c.get("k") == "bin" and c.get("op") == "=="]
+            then_v, else_v = A.ev(v["then"], env), A.ev(v["else"], env)
+            cont = False
+            # the slice that is indexed: receiver of the first index expression in the condition
+            ix = [y for y in ir.walk_nodes(v["c"]) if y.get("k") == "index"]
+            base = A.ev_place(ix[0]["e"], env) if ix else None
+
+            def fld(idx_term, name):
+                return A.sym((((base, "[%s]" % (A.freeze(idx_term),)), ".range"), "." + name))
+            cur_off = fld(i_s, "offset")
+            prev_end = A.add(fld(A.sub(i_s, A.const(1)), "offset"), fld(A.sub(i_s, A.const(1)), "length"))
+            if len(eqs) == 1 and base is not None:
+                l, r = A.ev(eqs[0]["l"], env), A.ev(eqs[0]["r"], env)
+                cont = (A.eq(l, cur_off) and A.eq(r, prev_end)) or (A.eq(r, cur_off) and A.eq(l, prev_end))
+            plus1 = base is not None and A.eq(else_v, A.add(cur_off, A.const(1)))
+            oko = len(conj) == 2 and len(gt0) == 1 and cont and A.as_const(then_v) == 0 and plus1
+            why = "condition %s, then %s, else %s" % ([ir.place_str(c) or c.get("op") for c in conj], A.show(then_v), A.show(else_v))
+    ck.check(oko, rule, "writer|offsets", "offsets are written as offset + 1, and as 0 exactly when i > 0 and the entry starts at previous offset + previous length",
+             "the offset column is not encoded as published (%s)" % why, ir.loc(lp))
+    # reader: ids accumulate
+    r = fb[0]
+    rl = [n for n in ir.walk_nodes(ir.fn_block(r)) if n.get("k") == "for"]
+    okr = False
+    if rl:
+        lp = rl[0]
+        rd = [y for y in ir.walk_nodes(lp["body"]) if y.get("k") == "mcall" and y.get("name") == "read_varint"]
+        asg = [y for y in ir.walk_nodes(lp["body"]) if y.get("k") == "assign" and y["l"].get("k") == "path"]
+        push = [y for y in ir.walk_nodes(lp["body"]) if y.get("k") == "call" and (y.get("q") or "").endswith("EntryV3::new")]
+        if len(rd) == 1 and len(asg) == 1 and len(push) == 1:
+            sv = ir.local_hid(asg[0]["l"])
+            env = A.Env()
+            A.run(ir.stmts_of(lp["body"]), env)
+            prev = A.sym((sv, ir.strip(asg[0]["l"])["name"]))
+            new = env.m.get(sv)
+            init = [y for y in ir.walk_nodes(ir.fn_block(r)) if y.get("k") == "let" and y["pat"].get("k") == "bind" and y["pat"]["hid"] == sv]
+            okr = new is not A.TOP and new is not None and len(new) == 2 and prev and all(c == 1 for c in new.values()) and list(prev.keys())[0] in new and \
+                ir.local_hid(push[0]["a"][0]) == sv and bool(init) and ir.const_eval(init[0].get("init"), {}) == 0
+    # index loops run over all entries: start 0
+    def starts(b_):
+        out = []
+        for n in ir.walk_nodes(ir.fn_block(b_)):
+            if n.get("k") == "for":
+                it = ir.unparen(n["iter"])
+                if it.get("k") == "struct" and "Range" in (it.get("q") or ""):
+                    fl = {f["name"]: f["e"] for f in it["fields"]}
+                    out.append(ir.const_eval(fl.get("start"), {}) if "start" in fl else None)
+        return out
+    st_w, st_r = starts(b), starts(r)
+    ck.check(all(v == 0 for v in st_w + st_r) and len(st_w) >= 1 and len(st_r) >= 2, rule, "index-loops", "the index loops of writer and reader start at entry 0 (%d + %d loops)" % (len(st_w), len(st_r)),
+             "an index loop over the directory entries starts at %s: the first entry is skipped" % (st_w + st_r), ir.loc(b))
+    # reader: a stored non-zero offset v means v - 1
+    subs = []
+    for y0 in [y for y in ir.walk_nodes(r["body"]) if y.get("k") == "assign" and ir.strip(y["l"]).get("k") == "field" and ir.strip(y["l"]).get("name") == "offset"]:
+        inside_index = {id(z) for ix_ in ir.walk_nodes(y0["r"]) if ix_.get("k") == "index" for z in ir.walk_nodes(ix_["i"])}
+        for y in ir.walk_nodes(y0["r"]):
+            if id(y) in inside_index:
+                continue
+            if y.get("k") == "mcall" and y.get("name") in ("checked_sub", "sub", "saturating_sub", "wrapping_sub") and len(y.get("a", ())) == 1:
+                subs.append(ir.const_eval(y["a"][0], {}))
+            if y.get("k") == "bin" and y.get("op") == "-":
+                subs.append(ir.const_eval(y["r"], {}))
+    asg_off = [y for y in ir.walk_nodes(r["body"]) if y.get("k") == "assign" and ir.strip(y["l"]).get("k") == "field" and ir.strip(y["l"]).get("name") == "offset"]
+    ck.check(subs == [1] and len(asg_off) == 2, rule, "reader|offset-minus-one", "a stored offset v > 0 is decoded as v - 1 and both branches assign the entry's offset",
+             "stored offsets are not decoded as v - 1 (subtrahends %s, %d assignments to .offset)" % (subs, len(asg_off)), ir.loc(r))
+    ck.check(okr, rule, "reader|id-sum", "tile ids are the running sum of the stored deltas, starting at 0", "the reader does not rebuild tile ids as the running sum of the deltas", ir.loc(r))
+
+
+def _env_of(b):
+    from . import affine as A
+    env = A.Env()
+    A.run(ir.stmts_of(ir.fn_block(b)), env)
+    return env
